@@ -188,6 +188,87 @@ fn check_surface(w: i32, h: i32, pixels: &[u32], st: &mut Stats, with_png: bool,
     None
 }
 
+fn png_bytes_expected(pixels: &[u32]) -> Vec<u8> {
+    let mut v = Vec::with_capacity(pixels.len() * 4);
+    for p in pixels {
+        let c = ch(*p);
+        let a = c[0];
+        let un = |x: i32| -> u8 { if a > 0 { (x * 255 / a) as u8 } else { x as u8 } };
+        v.extend_from_slice(&[un(c[1]), un(c[2]), un(c[3]), a as u8]);
+    }
+    v
+}
+
+/// One surface exported several times, changed in between through every way there is to change it: each
+/// export shows the pixels as they are then (whatever an implementation remembers about the buffer between
+/// exports). Then: into_vec / into_inner hand back exactly what get_data shows, also while a layer is open.
+fn check_export_history(rng: &mut crate::prng::Rng, st: &mut Stats, tag: u64) -> Option<String> {
+    let w = rng.int(1, 9) as i32;
+    let h = rng.int(1, 6) as i32;
+    let n = (w * h) as usize;
+    // starts fully opaque, or fully transparent, or mixed
+    let start = rng.below(3);
+    let init: Vec<u32> = (0..n).map(|_| match start { 0 => premul_pixel(rng) | 0xff000000, 1 => 0, _ => premul_pixel(rng) }).map(|p| if start == 0 { let c = ch(p); pack(255, c[1].min(255) as u32, c[2].min(255) as u32, c[3].min(255) as u32) } else { p }).collect();
+    let mut dt = DrawTarget::from_vec(w, h, init);
+    let path = format!("{}/c19h-{}-{}.png", work_dir(), std::process::id(), tag);
+    let steps = rng.int(2, 5);
+    for step in 0..steps {
+        let res = dt.write_png(&path);
+        let dec = decode_png(&path);
+        let _ = std::fs::remove_file(&path);
+        match (res, dec) {
+            (Ok(()), Ok((pw, ph, data, _, _))) => {
+                if pw != w as u32 || ph != h as u32 || data != png_bytes_expected(dt.get_data()) {
+                    let want = png_bytes_expected(dt.get_data());
+                    let k = data.iter().zip(want.iter()).position(|(a, b)| a != b).unwrap_or(0) / 4;
+                    return Some(format!("export #{} of the same surface: PNG pixel {} = {:?} but the word is {} now (R,G,B,A = {:?})", step, k, &data[4 * k..(4 * k + 4).min(data.len())], hex(dt.get_data()[k.min(n - 1)]), &want[4 * k..4 * k + 4]));
+                }
+            }
+            (r, d) => return Some(format!("export #{} failed: {:?} / {:?}", step, r.err().map(|e| e.to_string()), d.err())),
+        }
+        st.add("png_exports_in_histories", 1);
+        // change something, each time through another door
+        let k = rng.below(n as u64) as usize;
+        let p = if rng.chance(0.7) { premul_pixel(rng) & 0x7fffffff | 0x01000000 } else { premul_pixel(rng) };
+        let p = { let c = ch(p); let a = c[0].max(1); pack(a as u32, c[1].min(a) as u32, c[2].min(a) as u32, c[3].min(a) as u32) };
+        match rng.below(5) {
+            0 => dt.get_data_mut()[k] = p,
+            1 => {
+                let b = dt.get_data_u8_mut();
+                b[4 * k..4 * k + 4].copy_from_slice(&p.to_le_bytes());
+            }
+            2 => {
+                // only the alpha byte (and the colours that must stay below it)
+                let b = dt.get_data_u8_mut();
+                b[4 * k] = 0;
+                b[4 * k + 1] = 0;
+                b[4 * k + 2] = 0;
+                b[4 * k + 3] = 0x40;
+            }
+            3 => dt.fill_rect((k as i32 % w) as f32, (k as i32 / w) as f32, 1., 1., &Source::Solid(solid(p)), &opts(BlendMode::Src, 1., true)),
+            _ => dt.clear(solid(p)),
+        }
+    }
+    // an unmatched layer: the surface's own buffer is what the views show and what into_vec returns
+    if rng.chance(0.5) {
+        dt.push_layer_with_blend(*rng.pick(&[1.0f32, 0.5]), *rng.pick(&[BlendMode::SrcOver, BlendMode::Src, BlendMode::Multiply]));
+        dt.fill_rect(0., 0., w as f32, h as f32, &Source::Solid(solid(0x80402010)), &opts(BlendMode::SrcOver, 1., true));
+        st.add("into_vec_with_an_open_layer", 1);
+    }
+    let shown = dt.get_data().to_vec();
+    let shown_bytes = dt.get_data_u8().to_vec();
+    let v = dt.into_vec();
+    if v != shown {
+        let k = v.iter().zip(shown.iter()).position(|(a, b)| a != b).unwrap_or(0);
+        return Some(format!("into_vec returns {} at word {} but get_data showed {} just before", hex(*v.get(k).unwrap_or(&0)), k, hex(shown[k])));
+    }
+    let bytes: Vec<u8> = v.iter().flat_map(|p| p.to_le_bytes()).collect();
+    if bytes != shown_bytes {
+        return Some("get_data_u8 and into_vec disagree".to_string());
+    }
+    None
+}
+
 pub fn run(ctx: &Ctx) -> Outcome {
     let mut out = Outcome::new(
         "surfaces of size 0..17 x 0..9 filled with valid premultiplied pixels (every (alpha, colour) pair of one channel appears in the exhaustive part), transparent pixels with arbitrary colour bytes and position-dependent values: word packing (A<<24|R<<16|G<<8|B, SolidSource::to_u32, clear), get_data_u8 = B,G,R,A per word, writes through each view read back through the others, \
@@ -266,6 +347,21 @@ pub fn run(ctx: &Ctx) -> Outcome {
             }
             if want || !co.violations.is_empty() {
                 co.desc = Some(J::s(&format!("{}x{} surface, fill style {}", w, h, style)));
+            }
+            co
+        });
+    }
+    if !ctx.miri {
+        run_cases(ctx, &mut out, SubSpec { name: "export_histories", cases: ctx.n(600, 20_000), exhaustive: false, max_secs: 120. }, |i, want, st| {
+            let mut rng = ctx.rng("export_histories", i);
+            let mut co = CaseOut::default();
+            co.hash = crate::prng::hash_u64s(&[i, ctx.seed]);
+            co.nontrivial = true;
+            if let Some(v) = check_export_history(&mut rng, st, 9000 + i) {
+                co.viol("C19", v);
+            }
+            if want || !co.violations.is_empty() {
+                co.desc = Some(J::s("a surface exported with write_png several times, changed between exports through get_data_mut / get_data_u8_mut / fill_rect / clear; then into_vec (regenerated from the seed)"));
             }
             co
         });
